@@ -623,9 +623,19 @@ class SymHmac:
         return h
 
     def digest(self):
-        if all(type(i) is int for i in self._key.items) and all(type(i) is int for i in self._items):
+        concrete = all(type(i) is int for i in self._key.items) and all(type(i) is int for i in self._items)
+        if concrete and (core.CUR is None or not core.CUR.active or not TRACK_CONCRETE_HASHES):
             return _hmac.new(bytes(self._key.items), bytes(self._items), self._alg).digest()
-        return hash_uf(self.name, self.digest_size)(_frame(self._key, SymBytes(self._items)))
+        real = None
+        if concrete:
+            k_, m_, a_ = bytes(self._key.items), bytes(self._items), self._alg
+            real = (lambda _framed: _hmac.new(k_, m_, a_).digest())
+        u = hash_uf(self.name, self.digest_size)
+        u.real = real        # concrete applications are answered by the real HMAC and registered, so later symbolic ones stay consistent with them
+        try:
+            return u(_frame(self._key, SymBytes(self._items)))
+        finally:
+            u.real = None
 
     def hexdigest(self):
         d = self.digest()
@@ -697,8 +707,12 @@ ALWAYS = {io.BytesIO: _m_BytesIO, bytearray: _m_bytearray, secrets.randbelow: _m
 for _n in ("sha256", "sha1", "sha512"):
     ALWAYS[getattr(hashlib, _n)] = MODELS[getattr(hashlib, _n)]
 ALWAYS[hashlib.new] = _m_hashlib_new
+ALWAYS[_hmac.new] = _m_hmac_new
+ALWAYS[_hmac.digest] = _m_hmac_digest
 
 _BUILTIN_METHOD = type(b"".join)
+_LAZY_ITERABLES = (type(i for i in ()), map, zip, filter, type(iter([])), type(iter(())), type(reversed([])), enumerate)
+_CONSUMERS = frozenset([bytes, bytearray, sum, min, max, any, all, sorted, tuple, list, set, frozenset])
 STUBS: dict = {}  # harness-installed: callable -> replacement (hash / EC / randomness stubs)
 
 _OK_BUILTINS = (isinstance, len, repr, print, id, type, iter, next, enumerate, zip, hash, getattr, setattr,
@@ -764,6 +778,8 @@ def call(f, *args, **kwargs):
         m = None
     if args and type(f) is _BUILTIN_METHOD and f.__name__ == "join" and type(f.__self__) in (bytes, str, bytearray):
         args = (list(args[0]),) + args[1:]    # materialize generators so that symbolic parts are seen
+    elif args and type(args[0]) in _LAZY_ITERABLES and f in _CONSUMERS:
+        args = (list(args[0]),) + args[1:]    # bytes(x ^ y for ...), sum(... for ...): look inside the generator before deciding
     sym = any_sym(args, kwargs.values()) if (args or kwargs) else False
     if m is not None:
         if sym:
